@@ -180,6 +180,29 @@ func init() {
 		}
 		return n
 	}
+	// vCtxTimeout(ctx) (int64, bool): the timeout a context (or an ancestor) was created with
+	intrinsics["vCtxTimeout"] = func(fr *frame, args []value) value {
+		c := args[0].(iface)
+		for depth := 0; depth < 20 && c.t != nil; depth++ {
+			p, ok := c.v.(*value)
+			if !ok {
+				break
+			}
+			if d, ok := ctxTimeouts[p]; ok {
+				return tuple{d, true}
+			}
+			st, ok := (*p).(structure)
+			if !ok || len(st) == 0 {
+				break
+			}
+			parent, ok := st[0].(iface) // embedded Context is the first field of cancelCtx / valueCtx
+			if !ok {
+				break
+			}
+			c = parent
+		}
+		return tuple{int64(0), false}
+	}
 	intrinsics["vPrint"] = func(fr *frame, args []value) value {
 		fmt.Fprintln(os.Stderr, "vPrint:", toString(args[0]))
 		return nil
